@@ -447,7 +447,7 @@ func (c Config) MarshalJSON() ([]byte, error) {
 			e.Close()
 			b.WriteString(`"}`)
 		case valTLSxCA:
-			if i+4 >= n {
+			if i+3 >= n {
 				return nil, xerr.Wrap("tls-ca", ErrInvalidSetting)
 			}
 			a := (int(c[i+3]) | int(c[i+2])<<8) + i + 4
